@@ -151,6 +151,27 @@ def render(path):
     return ('/' if absolute else '') + '/'.join(render_step(s) for s in steps)
 
 
+def step_complex(step):
+    """a step is "complex" if it can legitimately match nothing: wildcard test, predicate, or a multi-hop axis"""
+    axis, test, pred = step
+    if axis == 'self' and test == '*' and pred is None:
+        return False             # the identity step ("."), dropped by the parser
+    return '*' in test or pred is not None or 'descendant' in axis
+
+
+def missing_is_error(g, path):
+    """documented empty-result rule of the default mode (nullglob): the query is an error ("package not found") iff the
+    context becomes empty at a step up to which every step (itself included) was a plain name"""
+    ctx = {0}
+    plain = True
+    for s in path[1]:
+        plain = plain and not step_complex(s)
+        ctx = eval_step(g, ctx, s)
+        if not ctx:
+            return plain
+    return False
+
+
 def is_simple(path):
     """a query without wildcards, predicates and multi-hop axes names one package per step:
     when it finds nothing the package "does not exist" (error in nullglob mode)"""
